@@ -234,6 +234,93 @@ theorem endpoint_rejects_dotdot (alnum : Char → Bool) (e : Str)
   · exact (hseg dot h).1 rfl
   · rw [habs] at h; cases h
 
+/-- the repair does not over-reject: every well-formed endpoint name of at most 1000 bytes is
+still accepted, for every alphanumeric predicate that contains the ASCII letters and digits. -/
+theorem endpoint_accepts_wf (alnum : Char → Bool) (e : Str)
+    (hal : ∀ c, isAsciiAlnum c = true → alnum c = true)
+    (hwf : wfEndpoint e = true) (hlen : utf8Len e ≤ 1000) : validateEndpoint alnum e = .ok := by
+  have hseg : ∀ g ∈ segs e, wfName g = true := by
+    unfold wfEndpoint at hwf
+    exact List.all_eq_true.mp hwf
+  have hne : e ≠ [] := by
+    intro h
+    subst h
+    have := hseg [] (by simp [segs, segsBy])
+    simp [wfName] at this
+  have hchars : e.all (endpointCharOk alnum) = true := by
+    rw [List.all_eq_true]
+    intro c hc
+    by_cases hs : c = '/'
+    · subst hs; simp [endpointCharOk]
+    · obtain ⟨g, hg, hcg⟩ := mem_segsBy_of_mem '/' e c hc hs
+      have hn : isNameChar c = true := by
+        cases hb : isNameChar c with
+        | true => rfl
+        | false => exact absurd hcg (wfName_not_mem g c (hseg g hg) hb)
+      unfold isNameChar at hn
+      simp only [Bool.or_eq_true, beq_iff_eq] at hn
+      unfold endpointCharOk
+      rcases hn with (hn | hn) | hn
+      · simp [hal c hn]
+      · simp [hn]
+      · simp [hn]
+  have habs : isAbs e = false := by
+    cases hb : isAbs e with
+    | false => rfl
+    | true =>
+      have := hseg [] (nil_mem_segs_of_isAbs e hb)
+      simp [wfName] at this
+  have hdots : (segs e).any (fun s => s == dot || s == dotdot) = false := by
+    rw [List.any_eq_false]
+    intro g hg
+    have hd := wfName_not_mem g '.' (hseg g hg) (by decide)
+    simp only [Bool.or_eq_true, beq_iff_eq, not_or]
+    exact ⟨fun h => hd (by rw [h]; decide), fun h => hd (by rw [h]; decide)⟩
+  unfold validateEndpoint
+  rw [if_neg hne, if_neg (by omega)]
+  simp [hchars, habs, hdots]
+
+/-- likewise `open_installation` still accepts every plain name, and opens `base/name`. -/
+theorem install_accepts_names (base : APath) (name : Str) (h : wfName name = true) :
+    installDir base name = some (base ++ [name]) := by
+  have hne := wfName_ne_nil name h
+  have hsl : '/' ∉ name := wfName_not_mem name '/' h (by decide)
+  have hdot : '.' ∉ name := wfName_not_mem name '.' h (by decide)
+  have hsegs : segs name = [name] := segsBy_of_not_mem '/' name hsl
+  have hnd : name ≠ dot := fun e => hdot (by rw [e]; decide)
+  have hndd : name ≠ dotdot := fun e => hdot (by rw [e]; decide)
+  have hcomps : comps name = [name] := by
+    rw [comps_eq_segs name (by rw [hsegs]; simpa using ⟨hne, hnd⟩), hsegs]
+  have habs : isAbs name = false := by
+    cases hb : isAbs name with
+    | false => rfl
+    | true =>
+      have := nil_mem_segs_of_isAbs name hb
+      rw [hsegs] at this
+      simp at this
+      exact absurd this hne
+  unfold installDir installNameOk join
+  simp [hsegs, hcomps, habs, hne, hnd, hndd]
+
+/-- and `check_archive_key` accepts every 16-byte hash text. -/
+theorem archive_key_accepts_hashes (k : Str) (h : wfHash k = true) : archiveKeyOk k = true := by
+  unfold wfHash at h
+  simp only [Bool.and_eq_true, beq_iff_eq] at h
+  have hhex : ∀ c ∈ k, isAsciiHexDigit c = true := by
+    intro c hc
+    have := List.all_eq_true.mp h.2 c hc
+    unfold isLowerHex at this
+    unfold isAsciiHexDigit
+    simp only [Bool.or_eq_true] at this ⊢
+    rcases this with h1 | h1
+    · exact Or.inl (Or.inl h1)
+    · exact Or.inl (Or.inr h1)
+  have hascii : ∀ c ∈ k, c.utf8Size = 1 := fun c hc => (isAsciiHexDigit_facts c (hhex c hc)).1
+  unfold archiveKeyOk
+  rw [utf8Len_ascii k hascii, h.1]
+  simp only [Bool.and_eq_true, decide_eq_true_eq]
+  exact ⟨by decide, List.all_eq_true.mpr hhex⟩
+
 /-- two accepted endpoints without empty segments are cached in different files. -/
 theorem endpoint_injective (alnum : Char → Bool) (root : APath) (e1 e2 : Str) (hr : dotdot ∉ root)
     (h1 : validateEndpoint alnum e1 = .ok) (h2 : validateEndpoint alnum e2 = .ok)
@@ -419,9 +506,6 @@ theorem install_pinned_counter :
     installDir [['r']] ['/', 'e'] = none ∧ installDir [['r']] [] = none := by decide
 
 /-! ### fixed-width binary names -/
-
-theorem ne_dotdot_of_no_dot (g : Comp) (h : '.' ∉ g) : g ≠ dotdot :=
-  fun e => h (by rw [e]; decide)
 
 /-- `format_content_key_path`: three hex components below the base, for every key. -/
 theorem content_key_path_confined (base : APath) (ekey : List Nat) (hb : dotdot ∉ base) :
